@@ -20,8 +20,8 @@ def setup(ctx):
     ctx.shrinker = cc.shrink_case
     ctx.rule = (
         "exhaustive: every dependency graph on <=3 components, each requiring any subset of {the 3 provided names, "
-        "1 available parameter, 1 missing name} (32^3 graphs), in declaration orders (all 6 in thorough, 2 per graph "
-        "+ all 6 on every 16th graph in quick), component kinds (derived / IA parameter / reaction / 2-output surrogate) "
+        "1 available parameter, 1 missing name} (32^3 graphs), in declaration orders (all 6 in thorough; quick: 1 per labelled "
+        "graph cycling through all six + all 6 on every 16th graph), component kinds (derived / IA parameter / reaction / 2-output surrogate) "
         "assigned by a fixed hash of the graph index; sampled: chains, reverse chains (worst case n(n+1)/2 iterations) up "
         "to n=40, diamonds, k-cycles with tails, self-loops, missing names, mixed kinds; re-wiring through update_derived / "
         "update_reaction and data sets updated / removed through update_data / remove_data between two rounds of queries. distinct = distinct (graph, order); "
@@ -161,6 +161,19 @@ def data_edits(rng, n_cases):
     return out
 
 
+def _tally(ctx, q, r):
+    """distribution of what the generator reaches: query kind x outcome class of the real code"""
+    if isinstance(r, dict) and "err" in r:
+        cls = r["err"][0]
+    elif isinstance(r, dict) and "ok" in r:
+        cls = "ok"
+    else:
+        cls = "parts"
+    d = ctx.extra_cov.setdefault("reached_outcomes", {})
+    key = f"{q[0]}:{cls}"
+    d[key] = d.get(key, 0) + 1
+
+
 def judge_case(ctx, case, R, M, S):
     if any(s == "inexact" for s in S):
         return
@@ -170,6 +183,7 @@ def judge_case(ctx, case, R, M, S):
     nq = len(case["queries"])
     for i in range(len(R)):
         q = case["queries"][i % nq]
+        _tally(ctx, q, R[i])
         sub = {"content": case["content"], "queries": [q], "decl_seed": case.get("decl_seed", 0)}
         if i >= nq:
             sub["edit"] = case["edit"]
@@ -194,7 +208,9 @@ def run(ctx):
         if thorough or idx % 16 == 0:
             orders = perms
         else:
-            orders = [perms[idx % 6], perms[(idx // 6 + 3) % 6]]
+            # every labelled graph is enumerated, so one order per graph (cycling through all six) already meets
+            # every (unlabelled graph, declaration order) pair
+            orders = [perms[(idx + idx // 6) % 6]]
         for o in orders:
             batch.append({"content": mk_content(reqs, kinds, list(o)), "queries": QUERIES, "decl_seed": idx,
                           "shape": "exh3"})
@@ -225,7 +241,7 @@ def run(ctx):
             run_batch(ctx, batch)
         ctx.extra_cov.setdefault("exhaustive_strata", []).append("all 22^4 graphs on 4 components with <=2 requirements each x 2 orders")
     ctx.exhaustive = False  # the sampled stratum below is not exhaustive
-    ctx.extra_cov.setdefault("exhaustive_strata", []).insert(0, "all 32768 graphs on <=3 components" + (" x all 6 orders" if thorough else " x 2 orders (all 6 on 1/16)"))
+    ctx.extra_cov.setdefault("exhaustive_strata", []).insert(0, "all 32768 graphs on <=3 components" + (" x all 6 orders" if thorough else " x 1 order per labelled graph, cycling (all 6 on 1/16)"))
     run_batch(ctx, sampled(ctx.rng, ctx.n(1500, 40000)))
     run_batch(ctx, rewired(ctx.rng, ctx.n(600, 10000)))
     run_batch(ctx, data_edits(ctx.rng, ctx.n(400, 5000)))
